@@ -19,10 +19,10 @@ SLOTS = ['Transition._source', 'Transition._target', 'CompoundState.initial', 'H
 
 
 def check(run):
-    rules_rename(run, 'C17')
-    rules_copy(run, 'C17')
+    run.guard(rules_rename, run, 'C17')
+    run.guard(rules_copy, run, 'C17')
     from .c16 import rules_caches
-    rules_caches(run, 'C17', '.5')
+    run.guard(rules_caches, run, 'C17', '.5')
 
 
 def rules_rename(run, P='C17', ids=('.1', '.2')):
